@@ -45,11 +45,13 @@ pub fn rat(x: f64) -> String {
 
 pub fn parse_rat(s: &str) -> Option<f64> {
     let mut it = s.split('/');
-    let a: f64 = it.next()?.parse::<i64>().ok()? as f64;
+    // 128-bit: the tolerance-based streams of C16 hand over rationals whose numerator exceeds 64 bits (the quotient is then
+    // the nearest double up to two roundings; the exact streams only use numerators below 2^53, converted exactly)
+    let a: f64 = it.next()?.parse::<i128>().ok()? as f64;
     match it.next() {
         None => Some(a),
         Some(b) => {
-            let b: f64 = b.parse::<u64>().ok()? as f64;
+            let b: f64 = b.parse::<u128>().ok()? as f64;
             if b == 0.0 { None } else { Some(a / b) }
         }
     }
